@@ -4,7 +4,9 @@ from .vals import Shape
 
 
 class LoopSpec:
-    def __init__(self, invariant=(), modifies=(), decreases=None, unroll=False, index=None, assume=()):
+    def __init__(self, invariant=(), modifies=(), decreases=None, unroll=False, index=None, assume=(),
+                 body_ensures=()):
+        self.body_ensures = list(body_ensures)   # clauses about ONE iteration (trace helpers see only its events)
         self.assume = list(assume)      # definitional unfoldings of spec functions, assumed at the loop head
         self.invariant = list(invariant)
         self.modifies = list(modifies)
